@@ -99,6 +99,74 @@ fn eod(version: u8, state: StateKey, timing: (u32, u32, u32)) -> WirePdu {
     }
 }
 
+/// The record a payload PDU is about: two PDUs about different records can be
+/// applied in either order with the same result.
+fn record_of(p: &WirePdu) -> WirePdu {
+    match p {
+        WirePdu::Ipv4 { plen, maxlen, addr, asn, .. } => WirePdu::Ipv4 { v: 0, flags: 0, plen: *plen, maxlen: *maxlen, addr: *addr, asn: *asn },
+        WirePdu::Ipv6 { plen, maxlen, addr, asn, .. } => WirePdu::Ipv6 { v: 0, flags: 0, plen: *plen, maxlen: *maxlen, addr: *addr, asn: *asn },
+        WirePdu::RouterKey { ski, asn, spki, .. } => WirePdu::RouterKey { v: 0, flags: 0, ski: *ski, asn: *asn, spki: spki.clone() },
+        WirePdu::Aspa { customer, .. } => WirePdu::Aspa { v: 0, flags: 0, customer: *customer, providers: Vec::new() },
+        other => other.clone(),
+    }
+}
+
+/// Are two payload PDUs the same statement? (An ASPA withdrawal is about its
+/// customer only.)
+fn same_statement(want: &WirePdu, got: &WirePdu) -> bool {
+    if want == got {
+        return true;
+    }
+    if let (WirePdu::Aspa { v: v1, flags: 0, customer: c1, .. }, WirePdu::Aspa { v: v2, flags: 0, customer: c2, .. }) = (want, got) {
+        return v1 == v2 && c1 == c2;
+    }
+    false
+}
+
+/// Compares the payload PDUs of a response with the source's answer: the same
+/// statements, those about one record in the source's order. Ok(true) when
+/// the listing order differs otherwise. Parsed-equal PDUs must also be laid
+/// out as the RFC says (reserved fields).
+fn same_payload(want: &[WirePdu], got: &[(usize, &WirePdu)], output: &[u8]) -> Result<bool, (&'static str, String)> {
+    let in_order = want.len() == got.len() && want.iter().zip(got.iter()).all(|(w, (_, g))| same_statement(w, g));
+    if !in_order {
+        if want.len() != got.len() {
+            return Err(("", format!(
+                "{} payload PDUs, the source's answer has {} for this version; first difference at #{}: got {}, expected {}",
+                got.len(), want.len(),
+                want.iter().zip(got.iter()).position(|(w, (_, g))| !same_statement(w, g)).unwrap_or(want.len().min(got.len())) + 1,
+                got.get(want.iter().zip(got.iter()).position(|(w, (_, g))| !same_statement(w, g)).unwrap_or(want.len().min(got.len()))).map(|g| wire::describe(g.1)).unwrap_or_else(|| "nothing".into()),
+                want.get(want.iter().zip(got.iter()).position(|(w, (_, g))| !same_statement(w, g)).unwrap_or(want.len().min(got.len()))).map(wire::describe).unwrap_or_else(|| "nothing".into()),
+            )));
+        }
+        let mut by_record: std::collections::BTreeMap<WirePdu, (Vec<&WirePdu>, Vec<&WirePdu>)> = std::collections::BTreeMap::new();
+        for w in want {
+            by_record.entry(record_of(w)).or_default().0.push(w);
+        }
+        for (_, g) in got {
+            by_record.entry(record_of(g)).or_default().1.push(g);
+        }
+        for (rec, (ws, gs)) in &by_record {
+            if ws.len() != gs.len() || !ws.iter().zip(gs.iter()).all(|(w, g)| same_statement(w, g)) {
+                return Err(("", format!(
+                    "about record {}: got [{}], the source's answer has [{}]",
+                    wire::describe(rec),
+                    gs.iter().map(|g| wire::describe(g)).collect::<Vec<_>>().join(", "),
+                    ws.iter().map(|w| wire::describe(w)).collect::<Vec<_>>().join(", "),
+                )));
+            }
+        }
+    }
+    for (off, g) in got {
+        let enc = g.encode();
+        let on_wire = &output[*off..(*off + enc.len()).min(output.len())];
+        if on_wire != &enc[..] {
+            return Err(("bytes", format!("{}: bytes on the wire are {}, RFC layout is {}", wire::describe(g), hex(on_wire), hex(&enc))));
+        }
+    }
+    Ok(!in_order)
+}
+
 /// The sequential model: what a server that reads `bytes` front to back and
 /// consults the source once per well-formed query must send. `answers` are
 /// the logged Full/Diff calls of this connection with the Timing call that
@@ -405,6 +473,7 @@ impl C08 {
             if cfg.dynamic && t.chance(1, 4) {
                 i.decline_diff = 4;
             }
+            i.chained_diff = t.chance(1, 3);
         }
         // a little history so that in-window serial queries have a diff
         if cfg.dynamic || matches!(kind, RunKind::Random) {
@@ -825,6 +894,7 @@ impl C08 {
         });
         out.sim_ms = 0;
         let odd_version_notifies = std::cell::Cell::new(0u64);
+        let reordered_responses = std::cell::Cell::new(0u64);
         let never_ready_seen = calls.iter().any(|c| matches!(c.kind, CallKind::Ready(false)));
         let judge = |ji: &JudgeIn, answers: &[Ans]| -> Result<(ModelOut, usize, u64), Violation> {
         let JudgeIn { script, output, pdus, used, version: conn_version, notified, never_ready_seen, partial_header_notifies, last_notify_mark } = *ji;
@@ -850,6 +920,7 @@ impl C08 {
         let mut idx = 0usize; // index into m.expected
         let mut within: Option<(usize, usize)> = None; // (expected idx, pdu idx) inside a Data response
         let mut notifies_seen = 0u64;
+        let mut body: Vec<(usize, &WirePdu)> = Vec::new();
         for (off, p) in pdus {
             if let WirePdu::SerialNotify { session, serial, v: nv } = p {
                 notifies_seen += 1;
@@ -884,55 +955,73 @@ impl C08 {
             };
             match exp {
                 Expected::Data(want, timings) => {
+                    // A response is Cache Response, the payload PDUs of the
+                    // source's answer, End of Data. Payload PDUs that concern
+                    // different records may come in any order (the statement
+                    // fixes the response, not the listing order of independent
+                    // records); PDUs about one record keep the source's order.
                     let j = within.map(|w| w.1).unwrap_or(0);
-                    let mut same = &want[j] == p;
-                    if !same {
-                        // ASPA withdrawals: only the customer is significant
-                        if let (WirePdu::Aspa { v: v1, flags: 0, customer: c1, .. }, WirePdu::Aspa { v: v2, flags: 0, customer: c2, .. }) = (&want[j], p) {
-                            same = v1 == v2 && c1 == c2;
+                    let bad = |what: String| Violation::new("corrupted-response", ctx_key(""), what);
+                    if j == 0 {
+                        let enc = want[0].encode();
+                        if &want[0] != p {
+                            return Err(bad(format!("response #{} PDU #0: got {}, expected {}", idx + 1, wire::describe(p), wire::describe(&want[0]))));
                         }
-                        // End of Data: any timing the source reported around this query
-                        if let (
-                            WirePdu::EndOfData { v: v1, session: s1, serial: n1, timing: Some(_) },
-                            WirePdu::EndOfData { v: v2, session: s2, serial: n2, timing: Some(t2) },
-                        ) = (&want[j], p) {
-                            // (a timing that the source never reported around this
-                            // query - e.g. a value cached from an earlier one - is
-                            // not a function of the source)
-                            same = v1 == v2 && s1 == s2 && n1 == n2 && timings.contains(t2);
+                        if output[*off..(*off + enc.len()).min(output.len())] != enc[..] {
+                            return Err(Violation::new("corrupted-response", ctx_key("bytes"), format!(
+                                "response #{} PDU #0 {}: bytes on the wire are {}, RFC layout is {}",
+                                idx + 1, wire::describe(p), hex(&output[*off..(*off + enc.len()).min(output.len())]), hex(&enc)
+                            )));
                         }
-                    } else {
-                        // parsed values agree: the bytes (reserved fields
-                        // included) must agree with the RFC layout as well
-                        let enc = want[j].encode();
-                        let got = &output[*off..(*off + enc.len()).min(output.len())];
-                        if got != &enc[..] {
-                            return Err(Violation::new(
-                                "corrupted-response",
-                                ctx_key("bytes"),
-                                format!(
-                                    "response #{} PDU #{} {}: bytes on the wire are {}, RFC layout is {}",
-                                    idx + 1, j, wire::describe(p), hex(got), hex(&enc)
-                                ),
-                            ));
+                        body.clear();
+                        within = Some((idx, 1));
+                    } else if let WirePdu::EndOfData { v: v2, session: s2, serial: n2, timing: t2 } = p {
+                        let last = want.last().unwrap();
+                        let same = match (last, t2) {
+                            // End of Data: any timing the source reported around this
+                            // query (a timing that the source never reported around it -
+                            // e.g. a value cached from an earlier one - is not a
+                            // function of the source)
+                            (WirePdu::EndOfData { v: v1, session: s1, serial: n1, timing: Some(_) }, Some(t2)) => {
+                                v1 == v2 && s1 == s2 && n1 == n2 && timings.contains(t2)
+                            }
+                            _ => last == p,
+                        };
+                        if !same {
+                            return Err(bad(format!(
+                                "response #{} PDU #{}: got {}, expected {} (timing candidates {:?})",
+                                idx + 1, j, wire::describe(p), wire::describe(last), timings
+                            )));
                         }
-                    }
-                    if !same {
-                        return Err(Violation::new(
-                            "corrupted-response",
-                            ctx_key(""),
-                            format!(
-                                "response #{} PDU #{}: got {}, expected {}{}",
-                                idx + 1, j, wire::describe(p), wire::describe(&want[j]),
-                                if matches!(p, WirePdu::EndOfData { .. }) { format!(" (timing candidates {:?})", timings) } else { String::new() }
-                            ),
-                        ));
-                    }
-                    if j + 1 == want.len() {
+                        let enc = p.encode();
+                        if output[*off..(*off + enc.len()).min(output.len())] != enc[..] {
+                            return Err(Violation::new("corrupted-response", ctx_key("bytes"), format!(
+                                "response #{} End of Data: bytes on the wire are {}, RFC layout is {}",
+                                idx + 1, hex(&output[*off..(*off + enc.len()).min(output.len())]), hex(&enc)
+                            )));
+                        }
+                        match same_payload(&want[1..want.len() - 1], &body, output) {
+                            Ok(reordered) => {
+                                if reordered { reordered_responses.set(reordered_responses.get() + 1); }
+                            }
+                            Err((class_key, what)) => {
+                                return Err(Violation::new("corrupted-response", ctx_key(class_key), format!("response #{}: {}", idx + 1, what)));
+                            }
+                        }
+                        body.clear();
                         within = None;
                         idx += 1;
-                    } else {
+                    } else if p.is_payload() {
+                        if body.len() + 2 >= want.len() {
+                            return Err(bad(format!(
+                                "response #{} PDU #{}: got {}, expected {} (the source's answer has {} payload PDUs for this version)",
+                                idx + 1, j, wire::describe(p), wire::describe(want.last().unwrap()), want.len() - 2
+                            )));
+                        }
+                        body.push((*off, p));
                         within = Some((idx, j + 1));
+                    } else {
+                        return Err(bad(format!("response #{} PDU #{}: got {} inside a data response", idx + 1, j, wire::describe(p))));
                     }
                 }
                 Expected::CacheReset { v } => {
@@ -1092,6 +1181,7 @@ impl C08 {
             }
         }
         counters.add("probe_notify_in_unexpected_version", odd_version_notifies.get());
+        counters.add("probe_response_lists_independent_records_in_another_order", reordered_responses.get());
         counters.add("probe_serial_notifies_seen", notifies_seen);
         counters.add("responses_checked", idx as u64);
         for e in &m.expected {
